@@ -50,14 +50,18 @@ META = {
         # agreement of the definitions generated from the Python source (tools/py2lean.py) with the model
         "Pyoda.GenAgree.C13.gen_Cache_getOrAdd_loop1_eq", "Pyoda.GenAgree.C13.gen_Cache_new_eq",
         "Pyoda.GenAgree.C13.gen_Cache_count_eq", "Pyoda.GenAgree.C13.gen_Cache_clear_eq",
-        "Pyoda.GenAgree.C13.gen_Cache_getOrAdd_eq", "Pyoda.GenAgree.C13Z.gen_Node_interval_eq",
-        "Pyoda.GenAgree.C13Z.gen_Node_period_eq", "Pyoda.GenAgree.C13Z.gen_Node_createNode_loop1_eq",
-        "Pyoda.GenAgree.C13Z.gen_Node_createNode_eq", "Pyoda.GenAgree.C13Z.gen_Cache_getZoneInterval_loop1_eq",
+        "Pyoda.GenAgree.C13.gen_Cache_getOrAdd_eq", "Pyoda.GenAgree.C13.gen_Cache_getOrAdd_atomic",
+        "Pyoda.GenAgree.C13.gen_Cache_count_atomic", "Pyoda.GenAgree.C13.gen_Cache_clear_atomic",
+        "Pyoda.GenAgree.C13.gen_Cache_getOrAdd_callbacks", "Pyoda.GenAgree.C13.cache_ops_atomic_in_source",
+        "Pyoda.GenAgree.C13Z.gen_Node_interval_eq", "Pyoda.GenAgree.C13Z.gen_Node_period_eq",
+        "Pyoda.GenAgree.C13Z.gen_Node_createNode_loop1_eq", "Pyoda.GenAgree.C13Z.gen_Node_createNode_eq",
+        "Pyoda.GenAgree.C13Z.gen_Cache_getZoneInterval_loop1_eq",
         "Pyoda.GenAgree.C13Z.gen_Cache_getZoneInterval_loop2_eq",
         "Pyoda.GenAgree.C13Z.gen_Cache_getZoneInterval_loop3_eq", "Pyoda.GenAgree.C13Z.gen_Cache_getZoneInterval_eq",
+        "Pyoda.GenAgree.C13Z.gen_Cache_getZoneInterval_gil_ops", "Pyoda.GenAgree.C13Z.gen_Node_accessors_frozen",
     ],
     "trusted_base": [
-        "translator tie (tools/py2lean.py; GenAgreeC13): _Cache (utility/_cache.py) — __init__, get_or_add with its eviction loop, count, clear — is re-translated from the source on every run as state-passing functions over (size, key deque, dict) and get_or_add is proved to be one `step` of the LRU model for every value factory (abstract callee) and every state whose dict is a dict (no key twice: kept by eviction, evict_keeps_dict). Python's dict/deque operations (in, [], []=, del, append, popleft, len) are the hand-written functions of PyodaGen/Support.lean (self-test corpus twin Lru.touch); keys/values are ints as in the model; `with self.__lock:` is translated as its body (one thread). The year-start caches are tied through C01 (GenAgreeC01Cache: gen_yearCache_transparent, gen_hebrewCache_transparent). The zone-interval cache _CachingZoneIntervalMap.__HashArrayCache is tied too (GenAgreeC13Z): _HashCacheNode._create_node (period arithmetic, the chain-building loop = `extend`) and get_zone_interval (slot index, node validity, the walk over _previous = `walk`) are proved to be one `step` of the zone cache model about which zoneCache_transparent is proved; the node chain is the model's (latest interval, earlier ones), the 512-slot list a function, the wrapped map an abstract callee; hypotheses: Instant._MIN_DAYS is the model's minDays and the period lies inside the Instant range (beyond it _from_untrusted_duration raises OverflowError, which the model does not describe — only the end-of-time sentinel lies there). Outside the tie: the lazies, the format-info cache",
+        "translator tie (tools/py2lean.py; GenAgreeC13): _Cache (utility/_cache.py) — __init__, get_or_add with its eviction loop, count, clear — is re-translated from the source on every run as state-passing functions over (size, key deque, dict) and get_or_add is proved to be one `step` of the LRU model for every value factory (abstract callee) and every state whose dict is a dict (no key twice: kept by eviction, evict_keeps_dict). Python's dict/deque operations (in, [], []=, del, append, popleft, len) are the hand-written functions of PyodaGen/Support.lean (self-test corpus twin Lru.touch); keys/values are ints as in the model; `with self.__lock:` is translated as its body (one thread), and the locked region assumed by lru_locked_linearizable is tied separately: the translator emits each method's lock discipline as data (`<op>.lockInfo`) and gen_Cache_getOrAdd_atomic / gen_Cache_count_atomic / gen_Cache_clear_atomic / cache_ops_atomic_in_source check `LockInfo.Atomic` on it on every run (every access to __dictionary / __key_list inside ONE `with self.__lock:`, no same-class call while holding it; the value factory is called inside the lock and taken as a pure function). The zone-interval cache has NO lock: its record says `gilOnly` and gen_Cache_getZoneInterval_gil_ops pins the single operations on mutable state whose atomicity rests on the GIL (one item load and one item store of __instant_cache) — trusted, not proved. The year-start caches are tied through C01 (GenAgreeC01Cache: gen_yearCache_transparent, gen_hebrewCache_transparent). The zone-interval cache _CachingZoneIntervalMap.__HashArrayCache is tied too (GenAgreeC13Z): _HashCacheNode._create_node (period arithmetic, the chain-building loop = `extend`) and get_zone_interval (slot index, node validity, the walk over _previous = `walk`) are proved to be one `step` of the zone cache model about which zoneCache_transparent is proved; the node chain is the model's (latest interval, earlier ones), the 512-slot list a function, the wrapped map an abstract callee; hypotheses: Instant._MIN_DAYS is the model's minDays and the period lies inside the Instant range (beyond it _from_untrusted_duration raises OverflowError, which the model does not describe — only the end-of-time sentinel lies there). Outside the tie: the lazies, the format-info cache",
         "CPython: one dict/list slot read or write and Lock.acquire/release are atomic (GIL); `(d << k) | v == d*2**k + v` for 0 <= v < 2**k; `x >> k`, `x & (2**k-1)` are floor division / modulo (compared on every ycache/hcache op, negative years included)",
         "fork() gives each barrier attempt a process in which the key has never been looked up",
     ],
